@@ -19,6 +19,7 @@ import (
 	"time"
 
 	"github.com/ossrs/go-oryx-lib/verifshim/vsched"
+	"github.com/ossrs/go-oryx-lib/verifshim/vtime"
 	"github.com/ossrs/go-oryx-lib/websocket"
 
 	"verif/dump"
@@ -113,6 +114,7 @@ func (c *conn) SetWriteDeadline(t time.Time) error { return nil }
 //   M<n>  WriteMessage(Text, n bytes)
 //   W<n>  NextWriter + Write(n bytes in 2 calls) + Close
 //   P     WriteControl(Ping, "pi")      O  WriteControl(Pong, "po")
+//   T     WriteControl(Ping, "pt") with a finite deadline: waiting for the write lock may time out (scheduler choice)
 //   C     WriteControl(Close, 1000 "bye")
 //   X     Conn.Close()
 //   R     ReadMessage loop until error (answers the preloaded ping with a pong)
@@ -129,6 +131,7 @@ type scenarioSpec struct {
 	Bounds   []int
 	ThBounds []int
 	Prune    bool
+	Timeouts bool // lock-wait timeouts of WriteControl are explored as costed environment deviations
 }
 
 type callResult struct {
@@ -184,6 +187,8 @@ func runOp(d *execData, th string, op string, setWho func()) {
 		}
 	case 'P':
 		err = d.ws.WriteControl(websocket.PingMessage, []byte("pi"), time.Time{})
+	case 'T':
+		err = d.ws.WriteControl(websocket.PingMessage, []byte("pt"), time.Now().Add(time.Hour))
 	case 'O':
 		err = d.ws.WriteControl(websocket.PongMessage, []byte("po"), time.Time{})
 	case 'C':
@@ -300,8 +305,14 @@ func judge(d *execData) (outcome, key, what string) {
 		if r.Op == "R" || r.Op == "X" {
 			continue
 		}
+		if strings.Contains(r.Err, "write timeout") && r.Op == "T" && d.spec.Timeouts {
+			continue // a control write with a deadline may give up waiting for the lock; it fails and nothing of it reaches the wire
+		}
 		if r.StartedAfter && r.Err != "ErrCloseSent" {
 			return outcome, "write-after-close-not-refused", fmt.Sprintf("call %s by %s started after the Close frame was completely on the wire but returned %q instead of the close-sent error", r.Op, r.Thread, r.Err)
+		}
+		if strings.Contains(r.Err, "write timeout") && r.Op == "T" && d.spec.Timeouts {
+			continue // a control write with a deadline may give up waiting for the lock; nothing of it reaches the wire
 		}
 		if r.Err != "" && r.Err != "ErrCloseSent" && !c.closed {
 			return outcome, "unexpected-write-error", fmt.Sprintf("call %s by %s failed with %q although no Close frame was sent before it started and the transport was open", r.Op, r.Thread, r.Err)
@@ -343,6 +354,7 @@ func mkScenario(c *hl.Ctx, spec scenarioSpec) mc.Scenario {
 	s := mc.Scenario{
 		Name: sp.Name, Bounds: bounds, Horizon: 4000,
 		Setup: func(x *vsched.Exec) {
+			vtime.TimeoutsEnabled = sp.Timeouts
 			d := newExec(&sp, true)
 			d.c.who = func() string { return x.CurrentThread() }
 			x.Data = d
@@ -392,6 +404,9 @@ func specs() []scenarioSpec {
 		// four threads
 		{Name: "srv-4threads", Server: true, WBuf: 32, Threads: []threadSpec{T("D", "M200"), T("K1", "P"), T("K2", "O"), T("Z", "C")}, Bounds: []int{0, 1, 2}, ThBounds: []int{0, 1, 2, 3, 4, -1}, Prune: true},
 		{Name: "cli-4threads-reader", Server: false, WBuf: 16, Threads: []threadSpec{T("D", "W40"), T("R", "R"), T("K", "P"), T("Z", "C")}, Bounds: []int{0, 1, 2}, ThBounds: []int{0, 1, 2, 3, 4, -1}, Prune: true},
+		// lock-wait timeouts: a control sender with a deadline may give up while another goroutine holds the write lock
+		{Name: "srv-extra+deadline-ping+close+timeouts", Server: true, WBuf: 32, Threads: []threadSpec{T("D", "M200"), T("K", "T", "T"), T("Z", "C")}, Bounds: []int{0, 1, 2, 3}, ThBounds: unb, Prune: true, Timeouts: true},
+		{Name: "cli-multiframe+deadline-ping+reader-pong+timeouts", Server: false, WBuf: 16, Threads: []threadSpec{T("D", "W40"), T("K", "T"), T("R", "R")}, Bounds: []int{0, 1, 2, 3}, ThBounds: unb, Prune: true, Timeouts: true},
 		{Name: "close-twice+data", Server: true, WBuf: 32, Threads: []threadSpec{T("D", "M10"), T("Z1", "C"), T("Z2", "C", "P")}, Bounds: unb, Prune: true},
 	}
 }
